@@ -2008,7 +2008,9 @@ func (e *executor) executeSetRow(ctx context.Context, index string, c *pql.Call,
 	}
 
 	result, err := e.mapReduce(ctx, index, shards, c, opt, mapFn, reduceFn)
-	return result.(bool), err
+	// result is nil when there was no shard to map over (empty index).
+	changed, _ := result.(bool)
+	return changed, err
 }
 
 // executeSetRowShard executes a SetRow() call for a single shard.
